@@ -9,6 +9,7 @@ is run against the copy (VERIF_REPO), and the copy is removed.  /repo itself is 
   mutant / break seed : one instance of a rule broken; the check must exit 1 and (when given) name the expected rule
   twin / neutral seed : behaviour unchanged; the check must exit 0 without any VIOLATION line
   auto twins          : unparse (formatter-like) and rename-locals over every module the property's rules analysed
+  revert              : each `fix:` commit of /repo listed in known_findings.json re-introduced (reverse patch): must be reported again
 
 Writes selftest/RESULT.json; exit 0 when every variant behaved as expected, 1 otherwise.
 """
@@ -64,6 +65,14 @@ def variants(props: list[str], kinds: set[str]) -> list[dict]:
                         out.append({'prop': q, 'name': 'seed:' + name, 'kind': 'twin', 'patch': p})
             elif own in props:
                 out.append({'prop': own, 'name': 'seed:' + name, 'kind': 'mutant', 'patch': p})
+    if 'revert' in kinds:
+        # every repaired defect, re-introduced: the rule that found it must report it again (a fixed entry suppresses nothing)
+        kf = json.load(open(os.path.join(V, 'known_findings.json')))
+        seen = set()
+        for f in kf['findings']:
+            if f.get('status') == 'fixed' and f.get('commit') and f['property'] in props and (f['commit'], f['property']) not in seen:
+                seen.add((f['commit'], f['property']))
+                out.append({'prop': f['property'], 'name': 'revert:%s@%s' % (f['id'].rstrip('bcde'), f['commit']), 'kind': 'mutant', 'revert': f['commit'], 'expect': f['key'].split('|')[0]})
     if 'mutant' in kinds or 'twin' in kinds:
         from selftest.variants import VARIANTS
 
@@ -84,7 +93,17 @@ def run_one(v: dict) -> dict:
     try:
         shutil.copytree(os.path.join(REPO, 'src', 'exabgp'), os.path.join(scratch, 'src', 'exabgp'), ignore=shutil.ignore_patterns('__pycache__'))
         changed: list[str] = []
-        if 'patch' in v:
+        if 'revert' in v:
+            diff = subprocess.run(['git', '-C', REPO if os.path.isdir(os.path.join(REPO, '.git')) else '/repo', 'show', '--format=', v['revert'], '--', 'src'], capture_output=True, text=True).stdout
+            pf = os.path.join(scratch, 'revert.diff')
+            open(pf, 'w').write(diff)
+            r = subprocess.run(['patch', '-p1', '-R', '-s', '-f', '-d', scratch, '-i', pf], capture_output=True, text=True)
+            if r.returncode:
+                res['status'] = 'skipped'
+                res['why'] = 'the repair cannot be reverted on its own any more (later changes touch the same lines)'
+                return res
+            changed = re.findall(r'^\+\+\+ b/(\S+)', diff, re.M)
+        elif 'patch' in v:
             r = subprocess.run(['patch', '-p1', '-s', '-f', '-d', scratch, '-i', v['patch']], capture_output=True, text=True)
             if r.returncode:
                 res['status'] = 'skipped'
@@ -154,7 +173,7 @@ def run_one(v: dict) -> dict:
 
 def main(argv: list[str]) -> int:
     jobs = 14
-    kinds = {'mutant', 'twin', 'seed', 'auto', 'cross'}
+    kinds = {'mutant', 'twin', 'seed', 'auto', 'cross', 'revert'}
     props = []
     it = iter(argv)
     for a in it:
